@@ -397,7 +397,7 @@ def run(tier, seed):
     nbody = 120 if not thorough else 4300      # 4 bytes/pair: crosses 127/128 (and 16383/16384 in thorough)
     for lo in range(0, nbody, 600):
         jobs.append((w_frames_api, ("body", lo, min(nbody, lo + 600))))
-    nf = 70 if not thorough else 2200          # 3 bytes/body, ~5 bytes/export
+    nf = 140 if not thorough else 2200         # crosses the 127/128 entry count (quick) and 16383/16384 bytes (thorough)
     for lo in range(1, nf, 400):
         jobs.append((w_frames_api, ("funcs", lo, min(nf, lo + 400))))
     for lo in range(1, 300 if not thorough else 17000, 3000):
